@@ -20,7 +20,7 @@ What is proved here
   `optimize_idempotent_not_full_object` (object→Any leaves `Union[Any, …]` — known finding
   c11-union-any-after-adjust); `optimize_idempotent_partial` and the idempotent single visitors.
 -/
-import PytypeModel.Proofs.OptimizePipeline
+import PytypeModel.Proofs.OptimizeExact
 
 namespace PytypeModel.Props.C11
 open PytypeModel.Pytd
@@ -145,6 +145,59 @@ theorem optimize_widens_ty (S : Sem) (o : Opts) (H : Hier) (pos : Pos) (t : Ty)
     · exact adjustGeneric_le S x v hx
   exact h6 _ (h5 _ h4)
 
+/-! ## lossless settings: where the strict widenings come from -/
+
+/-- the type-level steps of the lossless pipeline, named -/
+def step1 (t : Ty) : Ty := simplifyUnions t
+def step2 (t : Ty) : Ty := combineContainers (step1 t)
+def step3 (t : Ty) : Ty := simplifyContainers (step2 t)
+def step4 (o : Opts) (H : Hier) (t : Ty) : Ty := if o.hasDeps then suws H (step3 t) else step3 t
+def step5 (o : Opts) (H : Hier) (t : Ty) : Ty := if o.maxUnion != 0 then collapse o.maxUnion (step4 o H t) else step4 o H t
+def step6 (o : Opts) (H : Hier) (pos : Pos) (t : Ty) : Ty := if pos == .param then step5 o H t else adjustGeneric (step5 o H t)
+
+theorem optimizeTy_steps (o : Opts) (H : Hier) (pos : Pos) (t : Ty) (hl : o.lossy = false) :
+    optimizeTy o H pos t = simplifyContainers (step6 o H pos t) := by
+  simp [optimizeTy, step6, step5, step4, step3, step2, step1, hl]
+
+/-- **lossless_changes**: with `lossy=False` a value admitted after optimisation was admitted before,
+unless CombineContainers changed the type (container merging, incl. tuple/callable degeneration),
+CollapseLongUnions changed it (a union longer than `max_union` became `Any`, or `Any` absorbed its
+union), or `object` became `Any` in a return/constant position.  All other steps — SimplifyUnions,
+SimplifyContainers, SimplifyUnionsWithSuperclasses — are exact. -/
+theorem lossless_changes (S : Sem) (o : Opts) (H : Hier) (pos : Pos) (t : Ty) (hl : o.lossy = false) (v : Val) :
+    den S (optimizeTy o H pos t) v →
+      den S t v ∨ step2 t ≠ step1 t ∨ step5 o H t ≠ step4 o H t ∨ step6 o H pos t ≠ step5 o H t := by
+  intro hv
+  rw [optimizeTy_steps o H pos t hl] at hv
+  have h6 := simplifyContainers_ge S _ v hv
+  by_cases e6 : step6 o H pos t = step5 o H t
+  · by_cases e5 : step5 o H t = step4 o H t
+    · by_cases e2 : step2 t = step1 t
+      · left
+        rw [e6, e5] at h6
+        have h3 : den S (step3 t) v := by
+          unfold step4 at h6
+          split at h6
+          · exact suws_ge S H _ v h6
+          · exact h6
+        have h2 := simplifyContainers_ge S _ v h3
+        rw [e2] at h2
+        exact simplifyUnions_ge S t v h2
+      · exact Or.inr (Or.inl e2)
+    · exact Or.inr (Or.inr (Or.inl e5))
+  · exact Or.inr (Or.inr (Or.inr e6))
+
+/-- the exact visitors, one by one -/
+theorem simplifyUnions_exact (S : Sem) (t : Ty) (v : Val) : den S (simplifyUnions t) v ↔ den S t v :=
+  ⟨simplifyUnions_ge S t v, simplifyUnions_le S t v⟩
+
+theorem simplifyContainers_exact (S : Sem) (t : Ty) (v : Val) : den S (simplifyContainers t) v ↔ den S t v :=
+  ⟨simplifyContainers_ge S t v, simplifyContainers_le S t v⟩
+
+theorem simplifyUnionsWithSuperclasses_exact (S : Sem) (H : Hier) (hs : HierSound S H) (ha : Antisymm S)
+    (t : Ty) (hg : suwsOK H t = true) (v : Val) : den S (suws H t) v ↔ den S t v :=
+  ⟨suws_ge S H t v, suws_le hs ha t hg v⟩
+
 /-! ## the side conditions are necessary -/
 
 def eqSem : Sem := ⟨fun a b => a = b, fun _ _ _ => False⟩
@@ -222,6 +275,27 @@ theorem optimize_idempotent_not_full_object :
   have h2 : rets (optimize {} [] [] (optimize {} [] [] objWitness)) = [.any] := by decide +kernel
   rw [h {} [] [] objWitness, h1] at h2
   exact absurd h2 (by decide)
+
+/-- `def f() -> object` with an unresolved NamedType, as a parsed stub has it -/
+def lookupWitness : TUnit :=
+  { name := "m", functions := [{ name := "f", sigs := [{ params := [], ret := .named "builtins.object" }] }] }
+
+/-- a third root cause: AdjustGenericType only recognises `ClassType("builtins.object")`; the
+NamedType becomes a ClassType in the final LookupClasses, so only the second run turns it into `Any`. -/
+theorem optimize_idempotent_not_full_lookup :
+    ¬ ∀ (o : Opts) (deps abcs : Hier) (u : TUnit),
+        optimize o deps abcs (optimize o deps abcs u) = optimize o deps abcs u := by
+  intro h
+  have h1 : rets (optimize Opts.pytype [] [] lookupWitness) = [.cls "builtins.object"] := by decide +kernel
+  have h2 : rets (optimize Opts.pytype [] [] (optimize Opts.pytype [] [] lookupWitness)) = [.any] := by decide +kernel
+  rw [h Opts.pytype [] [] lookupWitness, h1] at h2
+  exact absurd h2 (by decide)
+
+/-- single visitors that are idempotent -/
+theorem removeDuplicates_idempotent (f : Func) : removeDuplicates (removeDuplicates f) = removeDuplicates f :=
+  removeDuplicates_idem f
+
+theorem joinTypes_idempotent (ts : List Ty) : joinTypes [joinTypes ts] = joinTypes ts := joinTypes_idem ts
 
 /-- every visitor of the pipeline leaves the unit as it is -/
 def Stable (o : Opts) (H : Hier) (u : TUnit) : Prop :=
